@@ -192,6 +192,11 @@ func (m *Model) Path(n *Node) []*Node {
 // ConnectErr explains why connecting b at the given height on top of u fails, or "".
 // On success u is updated in place; on failure u is left untouched.
 func (m *Model) Connect(u UTXO, b *reftx.Block, height uint32) string {
+	return m.ConnectOn(u, b, height, nil)
+}
+
+// ConnectOn is Connect with the parent node known, which enables the BIP68 rule.
+func (m *Model) ConnectOn(u UTXO, b *reftx.Block, height uint32, parent *Node) string {
 	p := &m.P
 	flags := p.FlagsAt(height)
 	type delta struct {
@@ -254,6 +259,14 @@ func (m *Model) Connect(u UTXO, b *reftx.Block, height uint32) string {
 				return "inputs do not cover outputs"
 			}
 			fees += insum - outsum
+			if fees > p.MaxMoney {
+				undo()
+				return "fee total out of range"
+			}
+			if p.EnforceBIP68 && flags.CSV && parent != nil && !m.SequenceLocksOK(tx, spent, parent) {
+				undo()
+				return "relative lock-time not satisfied"
+			}
 			v := p.Verify
 			if v == nil {
 				v = Trivial
@@ -294,7 +307,7 @@ func (m *Model) Connect(u UTXO, b *reftx.Block, height uint32) string {
 func (m *Model) ReplayTo(n *Node) (UTXO, *Node, string) {
 	u := UTXO{}
 	for _, x := range m.Path(n) {
-		if why := m.Connect(u, x.Block, x.Height); why != "" {
+		if why := m.ConnectOn(u, x.Block, x.Height, x.Parent); why != "" {
 			return nil, x, why
 		}
 	}
@@ -313,7 +326,7 @@ func (m *Model) Valid(n *Node) bool {
 	for k, v := range n.Parent.utxo {
 		u[k] = v
 	}
-	why := m.Connect(u, n.Block, n.Height)
+	why := m.ConnectOn(u, n.Block, n.Height, n.Parent)
 	n.validKnown = true
 	n.valid = why == ""
 	n.why = why
